@@ -21,6 +21,19 @@ def config(levels, max_loggers, acts, pkg_levels=None):
                 errdev=ERRDEV)
 
 
+# RegisterLevel calls of the registry graph: a value registered twice (the second call is refused and
+# must change nothing), a call refused for its title (nothing of it may stay behind), a retry of
+# that value without treated-as level, a negative value
+REG_CALLS = [dict(v=20, t=4), dict(v=20, t=2), dict(v=21, t=3, clash=True), dict(v=21), dict(v=-8, t=4)]
+
+
+def config_reg(quick):
+    return dict(max_loggers=1, init_level=5, names=[], bool_lists=[[]], layouts=[""], opt_lists=[[]],
+                setter_args={"Level": [(v, 0) for v in ([2, 4, 6] if quick else [2, 3, 4, 5, 6, 7, 8])]},
+                acts=["Set", "Register"], probe_sevs=[4], gate_sevs=[2, 3, 4, 5, 6, 9, 20, 21, -8, 17],
+                customs=[], reg_calls=REG_CALLS)
+
+
 def explain(ev, b):
     """Name the entry points that decide differently from the others at the same severity."""
     out = []
@@ -52,7 +65,7 @@ def run(ctx, replay):
     inv = ["GateAgrees", "TreeOK"]
     props = ["DbgSticky", "Isolation"]
     # (a) one logger, every level value: every (logger level, debug mode) pair, whole gate table each
-    corelib.run_core(ctx, config(ALL_LEVELS, 1, ["Set", "DbgMode"]), inv, props, OBS, rand_count=0, rand_depth=0, rand_loggers=1,
+    corelib.run_core(ctx, config(ALL_LEVELS, 1, ["Set", "DbgMode", "VrbMode"]), inv, props, OBS, rand_count=0, rand_depth=0, rand_loggers=1,
                      tag="one", key_fn=explain)
     # (b) two loggers (default + child): debug mode switched on through either of them or through the
     #     package-level SetLevel, observed on both
@@ -60,7 +73,12 @@ def run(ctx, replay):
     corelib.run_core(ctx, config(lv2, 2, ["Set", "With", "PkgSetLevel", "DbgMode"]), inv, props, OBS,
                      rand_count=15 if ctx.quick() else 150, rand_depth=12 if ctx.quick() else 25,
                      rand_loggers=4 if ctx.quick() else 6, rand_cfg=wide, tag="two", key_fn=explain)
-    ctx.assumptions += ["custom levels are registered once at process start (registration histories are C17)",
+    # (c) the registry is part of the state: levels registered (or refused) in the middle of a history, one
+    #     fresh process per behaviour
+    corelib.run_core(ctx, config_reg(ctx.quick()), inv, props + ["RegistryLocal"], OBS, rand_count=10 if ctx.quick() else 200,
+                     rand_depth=8 if ctx.quick() else 12, rand_loggers=1, tag="reg", key_fn=explain)
+    ctx.assumptions += ["graphs (a) and (b): custom levels are registered once at process start; graph (c) registers them "
+                        "in the middle of a history (names, tags and marshalling of registered levels are C17)",
                         "Panic/Fatal rows are issued with the no-interrupt flag set so that the call returns",
                         "Entry.Log is probed with the four standard log/slog levels only (other values belong to C15)"]
     return ctx.finish(rule="every transition of two exhaustive MC graphs executed on the library; after every call the full "
